@@ -103,6 +103,10 @@ fn corpus() -> Vec<Edge> {
         edge("tuple-variant-only-field-skipped", "#[typeshare]\n#[serde(tag = \"t\", content = \"c\")]\npub enum E { A(#[serde(skip)] u8), B(u8), C(#[typeshare(skip)] u8, #[serde(skip)] u8) }\n"),
         edge("struct-all-named-fields-skipped", "#[typeshare]\npub struct AllGone { #[serde(skip)] pub a: u8, #[typeshare(skip)] pub b: u8 }\n#[typeshare]\n#[serde(tag = \"t\", content = \"c\")]\npub enum F { V { #[serde(skip)] x: u8 }, W }\n"),
         edge("tuple-struct-field-behind-cfg", "#[typeshare]\npub struct DeviceToken(#[cfg(target_os = \"ios\")] pub String);\n#[typeshare]\npub struct Two(#[cfg(target_os = \"ios\")] pub String, #[cfg(target_os = \"android\")] pub u32);\n"),
+        edge("untagged-enum-with-empty-brace-variant", "#[typeshare]\npub enum ConnectionState { Idle, Connecting, Established {} }\n"),
+        edge("untagged-enum-with-empty-paren-variant", "#[typeshare]\npub enum Phase { Start, Middle(), End }\n"),
+        edge("tagged-enum-with-empty-brace-and-paren-variants", "#[typeshare]\n#[serde(tag = \"t\", content = \"c\")]\npub enum Mixed { A {}, B(), C, D { x: u8 } }\n"),
+        edge("unit-struct-three-spellings", "#[typeshare]\npub struct UnitA;\n#[typeshare]\npub struct UnitB {}\n#[typeshare]\npub struct UnitC();\n"),
         edge("non-ascii-before-acronym", "#[typeshare]\npub struct Benutzer { pub größe_id: u32, pub übung_url: String, pub id_größe: u8, pub é_api_é: u8 }\n#[typeshare]\npub struct GrößeId { pub a: u8 }\n#[typeshare]\n#[serde(tag = \"t\", content = \"c\")]\npub enum ÜbungUrl { ÄpiId(GrößeId), Über { straße_id: u8 } }\n"),
         edge("non-ascii-type-name", "#[typeshare]\npub struct Étoile { pub a: u8 }\n#[typeshare]\n#[serde(tag = \"t\", content = \"c\")]\npub enum Éé { A(Étoile) }\n"),
         edge("const-every-backend", "#[typeshare]\npub const LIMIT: u32 = 7;\n"),
